@@ -734,6 +734,9 @@ class ParallelProcess(Process):
             args=(child, process, self.profile))
         self.multiprocess.start()
         self._ended = False
+        # Whether the process is a step never changes; asking the worker
+        # each time would fail while an update is pending.
+        self._is_step = process.is_step()
         self._pending_command: Optional[
             Tuple[str, Optional[tuple], Optional[dict]]] = None
 
@@ -821,7 +824,7 @@ class ParallelProcess(Process):
         return self.run_command('calculate_timestep', (states,))
 
     def is_step(self) -> bool:
-        return self.run_command('is_step')
+        return self._is_step
 
     def get_private_state(self) -> State:
         return self.run_command('get_private_state')
